@@ -444,9 +444,74 @@ def gen_tasks(tier, seed):
     for cls, spec_ in inst:
         for status in ("kTimeLimit", "kInterrupt", "kUnknown", "custom-alarm"):
             tasks.append({"kind": "inject", "cls": cls, "spec": spec_, "status": status})
+    tasks.append({"kind": "getters"})
     for i, t in enumerate(tasks):
         t["tid"] = i
     return tasks
+
+
+def _getters_task(task, res):
+    """models that are not solved (never solved, or solve() returned False on an infeasible instance) must raise from the getters"""
+    import flowpaths as fp
+    import networkx as nx
+    res["functions"] = ["get_solution/get_objective_value of every model class before solve() and after an unsuccessful solve()"]
+    def g(edges):
+        G_ = nx.DiGraph()
+        for (u, v, f) in edges:
+            G_.add_edge(u, v, flow=f)
+        return G_
+    D = [("a", "b", 3), ("a", "c", 2), ("b", "d", 2), ("c", "d", 3), ("b", "c", 1)]
+    Dh = [(u, v, f / 2) for (u, v, f) in D]                      # fractional flow: no integer-weighted decomposition
+    C = [("s", "a", 2), ("a", "b", 3), ("b", "a", 1), ("b", "t", 2), ("a", "a", 1)]
+    mk = [("kFlowDecomp:k-too-small", lambda: fp.kFlowDecomp(g(D), "flow", k=1, weight_type=int)),
+          ("kFlowDecomp:int-weights-fractional-flow", lambda: fp.kFlowDecomp(g(Dh), "flow", k=3, weight_type=int)),
+          ("kFlowDecomp:int-weights-fractional-flow-k5", lambda: fp.kFlowDecomp(g(Dh), "flow", k=5, weight_type=int)),
+          ("MinFlowDecomp:int-weights-fractional-flow", lambda: fp.MinFlowDecomp(g(Dh), "flow", weight_type=int)),
+          ("kFlowDecompCycles:k-too-small", lambda: fp.kFlowDecompCycles(g([("s", "a", 1), ("s", "b", 2), ("a", "t", 1), ("b", "t", 2)]), "flow", k=1, weight_type=int)),
+          ("kPathCover:k-too-small", lambda: fp.kPathCover(g(D), k=1)), ("kPathCoverCycles:k-too-small", lambda: fp.kPathCoverCycles(g([("s", "a", 1), ("s", "b", 2), ("a", "t", 1), ("b", "t", 2)]), k=1)),
+          ("kLeastAbsErrors:valid", lambda: fp.kLeastAbsErrors(g(D), "flow", k=2, weight_type=int)), ("kMinPathErrorCycles:valid", lambda: fp.kMinPathErrorCycles(g(C), "flow", k=2, weight_type=int)),
+          ("MinErrorFlow:valid", lambda: fp.MinErrorFlow(g(D), "flow", weight_type=int)), ("MinGenSet:valid", lambda: fp.MinGenSet([1, 2, 4], total=7, weight_type=int)),
+          ("MinSetCover:no-cover", lambda: fp.MinSetCover([1, 2, 3], [[1], [2]]))]
+    def gives_data(m):
+        out = []
+        for nm in ("get_solution", "get_objective_value"):
+            f = getattr(m, nm, None)
+            if f is None:
+                continue
+            try:
+                r = f()
+                if r is not None:
+                    out.append(nm)
+            except Exception:
+                pass
+        return out
+    for name, make in mk:
+        res["obligations"] += 1
+        res["nontrivial"] += 1
+        try:
+            m = make()
+        except Exception as e:
+            res["discharged"] += 1            # rejected at construction: nothing to hand out
+            continue
+        bad = None
+        d0 = gives_data(m) if not _solved_safe(m) else []
+        if d0:
+            bad = f"before solve(): {d0} returned data"
+        else:
+            try:
+                ok = m.solve()
+            except Exception:
+                ok = False
+            if not ok and not _solved_safe(m):
+                d1 = gives_data(m)
+                if d1:
+                    bad = f"after solve() returned False: {d1} returned data"
+        if bad:
+            res["violations"].append({"signature": f"{name.split(':')[0]}:getters-return-data-although-not-solved", "summary": f"{name}: {bad}", "replay": {"task": task}})
+        else:
+            res["discharged"] += 1
+    res["samples"].append({"obligation": "not solved => get_solution()/get_objective_value() raise", "instances": [n for n, _ in mk]})
+    return res
 
 
 def _src(task):
@@ -458,6 +523,8 @@ def _src(task):
 def run_task(task):
     res = new_result()
     res["evaluations"] = 1
+    if task["kind"] == "getters":
+        return _getters_task(task, res)
     if task["kind"] == "inject":
         return _inject_task(task, res)
     res["functions"] = {"wrapper": [f"{task['name']}.solve"], "mingenset": ["MinGenSet.solve"], "numpaths": ["NumPathsOptimization.solve"],
@@ -613,6 +680,12 @@ def _inject_task(task, res):
 
 def replay(data):
     task = data["task"]
+    if task["kind"] == "getters":
+        res = new_result()
+        _getters_task(task, res)
+        for v in res["violations"]:
+            print("  replay:", v["summary"])
+        return bool(res["violations"])
     if task["kind"] == "inject":
         res = new_result()
         _inject_task(task, res)
